@@ -377,3 +377,19 @@ def run_c17(run, scratch, seed, tier):
 
 
 PROPS["C17"] = {"props_file": "C17.v", "run": run_c17}
+
+
+# ---------------------------------------------------------------- C02
+def run_c02(run, scratch, seed, tier):
+    bst = backtest_suite(run, scratch, seed, sizes(tier, 300, 5000),
+                         oracle_fns=[("C02 attribution", oracles.c02_attribution)])
+    run.add_suite("backtest_runs", bst)
+    run.cov["rule"] = bst["rule"]
+    fst = backtest_suite(run, scratch, seed + 3, sizes(tier, 120, 2000), name="fi_suite",
+                         oracle_fns=[("C02 attribution", oracles.c02_attribution)], gen=gen_fi_cases)
+    run.add_suite("fi_suite", fst)
+    est = suites.engine_suite(run, scratch, seed, sizes(tier, 150, 3000))
+    run.add_suite("engine_histories", est)
+
+
+PROPS["C02"] = {"props_file": "C02.v", "run": run_c02}
